@@ -67,6 +67,23 @@ def streams(tier, seed):
         ops = [a, b, {"op": "reorder", "obj": 1, "dims": partial_orders(rng, dims)},
                {"op": "concatenate", "obj": 0, "other": 1, "dim": dm}]
         out.append(ops)
+    # concatenate, systematically: 2-D and 3-D receivers, every concatenation dim, EVERY axis order of the operand,
+    # with pairwise distinct extents and with equal extents off the axis (where a mis-alignment keeps the shape)
+    import itertools as _it
+    for nd in (2, 3):
+        for equal in (False, True):
+            dims = rng.sample(DIM_POOL, nd)
+            shape = [3] * nd if equal else distinct_shape(rng, nd, 2, 5)
+            for k, dm in enumerate(dims):
+                for perm in _it.permutations(dims):
+                    a = new_op(rng, 0, dims=dims, shape=shape, cplx=False, kinds=["asc"] * 4)
+                    shape_b = list(shape); shape_b[k] = 2
+                    b = new_op(rng, 1, dims=dims, shape=shape_b, cplx=False, kinds=["asc"] * 4, salt=5000)
+                    b["coords"] = [list(c) for c in a["coords"]]
+                    last = Fraction(a["coords"][k][-1])
+                    b["coords"][k] = [str(last + 1 + i) for i in range(shape_b[k])]
+                    out.append([a, b, {"op": "reorder", "obj": 1, "dims": list(perm)},
+                                {"op": "concatenate", "obj": 0, "other": 1, "dim": dm}])
     # split: dim in every position
     for t in range(12 if tier == "quick" else 120):
         nd = rng.randint(1, 3)
